@@ -600,6 +600,8 @@ def r_periodic_struct(ctx):
         if not (end_v is not None and end_v[1] is None):
             want_mask.append(norm(ge(idx(b, 0), T("end"))))
         cores = [d for d in disj if "%" in show(d)]
+        if len(cores) > 1:          # a core that is itself a disjunction is flattened into the mask disjunction
+            cores = [Or(*cores)]
         masks = [norm(d) for d in disj if "%" not in show(d)]
         from sa.decide import canon as _canon
         ok = len(cores) == 1 and sorted(repr(_canon(m)) for m in masks) == sorted(repr(_canon(m)) for m in want_mask)
@@ -619,52 +621,203 @@ def r_periodic_struct(ctx):
              "domain and is not decided: only fan-out, parameters used, activity mask and rejection of unassigned resources are")
 
 
+def _generic_periodic(t):
+    """rename the busy tuple and the interval element to fixed symbols"""
+    m = {}
+    for s_ in subterms(t):
+        if s_ and s_[0] == "idx" and is_const(s_[2]) and s_[2][1] in (0, 1) and isinstance(s_[1], tuple) and s_[1]:
+            base = s_[1]
+            its = " ".join(show(x[3]) for x in subterms(base) if x and x[0] == "loop")
+            if "_busy_intervals" in its and not (base[0] == "elem" and ".items()" in its):
+                m[s_] = ("sym", f"busy{s_[2][1]}")
+            elif base[0] == "elem" and "list_of_time_intervals" in its:
+                m[s_] = ("sym", f"itv{s_[2][1]}")
+    return substitute(t, m)
+
+
+def _conjuncts(t):
+    if is_app(t, "And"):
+        for a in t[2:]:
+            yield from _conjuncts(a)
+    elif isinstance(t, tuple) and t and t[0] == "each":
+        yield from _conjuncts(t[3])
+    else:
+        yield t
+
+
+def _fixed_periodic_cores(ctx, cname, rule):
+    """(run, emission, conjunct) for the 'a task that cannot be interrupted does not meet the repeated interval' condition:
+    top-level conjuncts (inside the activity-mask disjunction) that fold a busy start with `%` and use the busy end unfolded"""
+    runs = runs_of(ctx, Entry("init", cls=cname, opaque=OPAQUE))
+    fails_closed(ctx, rule, runs)
+    out = []
+    for run in mandatory_runs(runs):
+        if dict(run.decisions).get("isinstance(self.resource, Worker)") is not True:
+            continue
+        for e in run.emissions:
+            if e.owner != SELF:
+                continue
+            tops = []
+            for c in _conjuncts(e.term):
+                if is_app(c, "Or") and any("%" not in show(d) for d in c[2:]) and any("%" in show(d) for d in c[2:]):
+                    for d in c[2:]:          # activity mask: Or(core, mask...)
+                        tops += list(_conjuncts(d))
+                else:
+                    tops.append(c)
+            for c in tops:
+                g = _generic_periodic(c)
+                if not (is_app(g) and g[1] in ("Xor", "Or") and "%" in show(g)):
+                    continue
+                mods = {x for x in subterms(g) if is_app(x, "%")}
+                outside = substitute(g, {m_: ("sym", "folded") for m_ in mods})
+                if "busy1" in show(outside) and "_duration" not in show(g):
+                    out.append((run, e, c))
+    return out
+
+
+def r_periodic_core(ctx):
+    """the folded non-overlap condition of the periodic constraints, decided: with f = (busy start - offset) % period
+    (0 <= f < period), d = busy end - busy start >= 0 and an interval 0 <= lo < hi <= period repeated every period, the busy
+    interval [f, f + d) meets none of the windows [lo + k*period, hi + k*period) iff
+        f + d <= lo   or   (f >= hi and f + d <= lo + period)
+    (windows k < 0 end before 0 <= f; window 0 and window 1 give the two bounds; windows k >= 2 follow from the second).
+    Linear integer arithmetic over (f, d, lo, hi, period): truth table over the atoms, each distinguishing assignment
+    refuted by Fourier-Motzkin or turned into integer values of the leaves."""
+    from sa.decide import linear_equiv, Undecided, canon
+    n = 0
+    for cname in ("ResourcePeriodicallyUnavailable", "ResourcePeriodicallyInterrupted"):
+        where = f"{cname}.__init__"
+        cores = _fixed_periodic_cores(ctx, cname, "R-PERIODIC-CORE")
+        if not cores:
+            raise P.AnalysisError(f"R-PERIODIC-CORE: anchor vanished: no folded non-overlap condition found in {cname}")
+        seen = set()
+        for run, e, c in cores:
+            g = norm(_generic_periodic(c))
+            key = repr(canon(g))
+            if key in seen:
+                continue
+            seen.add(key)
+            n += 1
+            b0, b1, lo, hi = S("busy0"), S("busy1"), S("itv0"), S("itv1")
+            per, off = T("period"), T("offset")
+            mods = {x for x in subterms(g) if is_app(x, "%")}
+            bad_mod = [m_ for m_ in mods if not (lin(m_[2]) == lin(sub(b0, off)) and norm(m_[3]) == per)]
+            if bad_mod or not mods:
+                ctx.violation("R-PERIODIC-CORE", where, "busy start folded into one period",
+                              f"the condition folds {[show(m_)[:80] for m_ in bad_mod] or 'nothing'}; documented: (busy start - offset) % period",
+                              loc(e))
+                continue
+            f = S("folded_start")
+            em = substitute(g, {m_: f for m_ in mods})
+            d = sub(b1, b0)
+            spec = Or(le(add(f, d), lo), And(ge(f, hi), le(add(f, d), add(lo, per))))
+            side = [ge(f, K(0)), le(f, sub(per, K(1))), ge(lo, K(0)), le(add(lo, K(1)), hi), le(hi, per), ge(d, K(0))]
+            try:
+                ok, wit = linear_equiv(em, spec, side)
+            except Undecided as u:
+                raise P.AnalysisError(f"R-PERIODIC-CORE: {where}: {u}")
+            if ok:
+                ctx.ok("R-PERIODIC-CORE", f"{where} [{describe_config(run)}]",
+                       sample={"emitted": show(em)[:240], "decided_by": f"linear integer arithmetic, {wit}"})
+            else:
+                v = wit["values"]
+                ctx.violation("R-PERIODIC-CORE", where, "folded busy interval meets no repetition of the interval",
+                              f"emitted {show(em)[:260]} ; documented {show(norm(spec))[:200]} ; they differ for {v} "
+                              f"(emitted {wit['first']}, documented {wit['second']}): a task that starts after the interval in one "
+                              f"period and runs into its next repetition is accepted", loc(e), witness=wit)
+    # interruptible tasks: neither the folded start nor the folded end lies strictly inside the interval
+    cname = "ResourcePeriodicallyInterrupted"
+    where = f"{cname}.__init__"
+    runs = runs_of(ctx, Entry("init", cls=cname, opaque=OPAQUE))
+    covered = set()
+    for run in mandatory_runs(runs):
+        if dict(run.decisions).get("isinstance(self.resource, Worker)") is not True:
+            continue
+        for e in run.emissions:
+            if e.owner != SELF:
+                continue
+            for c0 in _conjuncts(e.term):
+                parts = [c0]
+                if is_app(c0, "Or") and any("%" not in show(d_) for d_ in c0[2:]):
+                    parts = [x for d_ in c0[2:] for x in _conjuncts(d_)]
+                for c in parts:
+                    g = norm(_generic_periodic(c))
+                    if not (is_app(g) and g[1] in ("Xor", "Or") and "%" in show(g)) or "_duration" in show(g):
+                        continue
+                    mods = {x for x in subterms(g) if is_app(x, "%")}
+                    outside = substitute(g, {m_: ("sym", "folded") for m_ in mods})
+                    if "busy" in show(outside) or len(mods) != 1:
+                        continue
+                    m_ = next(iter(mods))
+                    which = None
+                    for nm in ("busy0", "busy1"):
+                        if lin(m_[2]) == lin(sub(S(nm), T("offset"))) and norm(m_[3]) == T("period"):
+                            which = nm
+                    key = (which, repr(canon(g)))
+                    if key in covered:
+                        continue
+                    covered.add(key)
+                    n += 1
+                    if which is None:
+                        ctx.violation("R-PERIODIC-CORE", where, "busy start / end folded into one period",
+                                      f"the condition folds {show(m_)[:100]}; documented: (busy start or end - offset) % period", loc(e))
+                        continue
+                    x = S("folded")
+                    em = substitute(g, {m_: x})
+                    lo, hi, per = S("itv0"), S("itv1"), T("period")
+                    spec = Or(le(x, lo), ge(x, hi))
+                    side = [ge(x, K(0)), le(x, sub(per, K(1))), ge(lo, K(0)), le(add(lo, K(1)), hi), le(hi, per)]
+                    ok, wit = linear_equiv(em, spec, side)
+                    if ok:
+                        ctx.ok("R-PERIODIC-CORE", f"{where}: folded {'start' if which == 'busy0' else 'end'} of an interruptible task not inside the interval",
+                               sample={"emitted": show(em)[:200]})
+                    else:
+                        ctx.violation("R-PERIODIC-CORE", where, f"folded {'start' if which == 'busy0' else 'end'} not strictly inside the interval",
+                                      f"emitted {show(em)[:200]} ; documented {show(spec)[:120]} ; they differ for {wit['values']}", loc(e), witness=wit)
+    if {k_[0] for k_ in covered} != {"busy0", "busy1"}:
+        ctx.violation("R-PERIODIC-CORE", where, "start and end of an interruptible task kept out of the interval",
+                      f"conditions found for {sorted(str(k_[0]) for k_ in covered)}; both the folded start and the folded end are required",
+                      first_line(ctx.project, cname))
+    ctx.floor("R-PERIODIC-CORE", "distinct folded conditions", n, 3)
+    ctx.assume("periodic constraints: the intervals lie inside one period (0 <= lo < hi <= period); period >= 1; busy end >= busy start")
+
+
 def r_sibling_periodic(ctx):
     """Engler-style sibling cross-check: ResourcePeriodicallyUnavailable and the fixed-duration branch of
     ResourcePeriodicallyInterrupted both say 'the folded busy interval does not meet the interval'; the two encodings must
-    be the same function of (busy start, busy end, lo, hi, offset, period). (Their arithmetic itself is not decided.)"""
+    be the same function of (busy start, busy end, lo, hi, offset, period).  (R-PERIODIC-CORE decides each of them.)"""
     from sa.decide import canon
-    def core_of(cname, pick):
-        runs = runs_of(ctx, Entry("init", cls=cname, opaque=OPAQUE))
-        fails_closed(ctx, "R-SIBLING-PERIODIC", runs)
-        out = []
-        for run in mandatory_runs(runs):
-            if dict(run.decisions).get("isinstance(self.resource, Worker)") is not True:
-                continue
-            for e in run.emissions:
-                if e.owner != SELF:
-                    continue
-                for s_ in subterms(e.term):
-                    if is_app(s_, "Xor") and len(s_) == 4 and "%" in show(s_) and pick(s_):
-                        out.append((run, e, s_))
-        return out
-    def generic(t):
-        """rename the busy tuple and the interval element to fixed symbols"""
-        m = {}
-        for s_ in subterms(t):
-            if s_ and s_[0] == "idx" and is_const(s_[2]) and s_[2][1] in (0, 1) and isinstance(s_[1], tuple) and s_[1]:
-                base = s_[1]
-                its = " ".join(show(x[3]) for x in subterms(base) if x and x[0] == "loop")
-                if "_busy_intervals" in its and not (base[0] == "elem" and ".items()" in its):
-                    m[s_] = ("sym", f"busy{s_[2][1]}")
-                elif base[0] == "elem" and "list_of_time_intervals" in its:
-                    m[s_] = ("sym", f"itv{s_[2][1]}")
-        return substitute(t, m)
-    a = core_of("ResourcePeriodicallyUnavailable", lambda x: True)
-    b = core_of("ResourcePeriodicallyInterrupted", lambda x: "busy1" in show(generic(x)) and is_app(x[2]) and x[2][1] in (">=", "<=") and is_app(x[3]) and x[3][1] in (">=", "<="))
-    # the fixed-duration (non interruptible) condition is the Xor of `folded start >= hi` and `folded start + duration <= lo`
+    a = _fixed_periodic_cores(ctx, "ResourcePeriodicallyUnavailable", "R-SIBLING-PERIODIC")
+    b = _fixed_periodic_cores(ctx, "ResourcePeriodicallyInterrupted", "R-SIBLING-PERIODIC")
     if not a or not b:
         raise P.AnalysisError(f"R-SIBLING-PERIODIC: cores found: unavailable {len(a)}, interrupted {len(b)}")
-    ca = {repr(canon(generic(x[2]))) for x in a}
-    cb = {repr(canon(generic(x[2]))) for x in b}
-    if len(ca) == 1 and ca <= cb:
+    from sa.decide import linear_equiv, Undecided
+
+    def abstracted(c):
+        g = norm(_generic_periodic(c))
+        mods = sorted({x for x in subterms(g) if is_app(x, "%")}, key=show)
+        return substitute(g, {m_: S(f"folded{i}:{show(m_)}") for i, m_ in enumerate(mods)})
+    fa, fb = abstracted(a[0][2]), abstracted(b[0][2])
+    side = [ge(sub(S("busy1"), S("busy0")), K(0)), le(add(S("itv0"), K(1)), S("itv1")), ge(S("itv0"), K(0)), le(S("itv1"), T("period"))]
+    same = True
+    wit = None
+    try:
+        for x in a[1:]:
+            ok, w = linear_equiv(fa, abstracted(x[2]), side)
+            same, wit = (same and ok), (wit or (None if ok else w))
+        for x in b:
+            ok, w = linear_equiv(fa, abstracted(x[2]), side)
+            same, wit = (same and ok), (wit or (None if ok else w))
+    except Undecided as u:
+        raise P.AnalysisError(f"R-SIBLING-PERIODIC: {u}")
+    if same:
         ctx.ok("R-SIBLING-PERIODIC", "the folded non-overlap condition of the two periodic constraints is the same function",
-               sample={"core": show(norm(generic(a[0][2])))[:300]})
+               sample={"core": show(norm(_generic_periodic(a[0][2])))[:300], "decided_by": "linear integer arithmetic"})
     else:
         ctx.violation("R-SIBLING-PERIODIC", "ResourcePeriodicallyUnavailable.__init__", "periodic siblings disagree",
-                      f"ResourcePeriodicallyUnavailable folds as {show(norm(generic(a[0][2])))[:260]} while "
-                      f"ResourcePeriodicallyInterrupted (fixed-duration tasks) folds as {[show(norm(generic(x[2])))[:200] for x in b][:2]}: "
-                      f"one of the two is wrong", loc(a[0][1]))
+                      f"ResourcePeriodicallyUnavailable folds as {show(norm(_generic_periodic(a[0][2])))[:260]} while "
+                      f"ResourcePeriodicallyInterrupted (fixed-duration tasks) folds as "
+                      f"{sorted({show(norm(_generic_periodic(x[2])))[:200] for x in b})[:2]}: they differ for {wit['values'] if wit else '?'}", loc(a[0][1]))
 
 
-RULES = [r_rc_relation, r_attr, r_union_exh, r_union_exh_raise, r_sibling_periodic, lambda ctx: r_loopvar(ctx, bases=("Constraint",)), r_periodic_struct]
+RULES = [r_rc_relation, r_attr, r_union_exh, r_union_exh_raise, r_sibling_periodic, r_periodic_core, lambda ctx: r_loopvar(ctx, bases=("Constraint",)), r_periodic_struct]
